@@ -222,7 +222,74 @@ def check_setters(W, ob):
     return n
 
 
+def _param_roots(W, e, out):
+    """configuration roots (argN, or self.F in a builder) an expression combines arithmetically; calls of crate functions are boundaries"""
+    t = e[0]
+    if t == 'ap':
+        m = re.match(r'^(arg\d+|self\.\w+)', e[1])
+        if m:
+            out.add(m.group(1))
+    elif t == 'bin':
+        _param_roots(W, e[2], out)
+        _param_roots(W, e[3], out)
+    elif t == 'un':
+        _param_roots(W, e[2], out)
+    elif t in ('min', 'max'):
+        for a in e[1]:
+            _param_roots(W, a, out)
+    elif t == 'call':
+        seg = last_seg(e[1])
+        if seg in ('min', 'max', 'clamp', 'saturating_sub', 'saturating_add', 'wrapping_sub', 'wrapping_add', 'checked_sub', 'checked_add', 'abs_diff', 'pow', 'rem_euclid',
+                   'unwrap_or', 'unwrap_or_default', 'unwrap'):
+            for a in e[2]:
+                _param_roots(W, a, out)
+    elif t == 'phi':
+        pass
+    return out
+
+
+def check_mixing(W, ob):
+    """constructors and the builder's start_* functions hand each configuration value on as it is: an expression given to a callee or stored in a
+    field does not combine two DIFFERENT configuration parameters (`min(input_delay, max_prediction)`): a value the user configured would silently
+    depend on another one.  (Deciding one value by a test on another -- sparse saving off in lockstep -- is control flow, checked where it matters.)"""
+    n = 0
+    for f in W.fx.fn_list:
+        if f.derived or f.kind not in ('fn', 'method'):
+            continue
+        last = f.path.split('::')[-1]
+        if not (last == 'new' or last.startswith('start_')) or 'tests' in f.path:
+            continue
+        cx = W.ctx(f)
+        seen = set()
+
+        def chk(e, what, line):
+            nonlocal n
+            roots = _param_roots(W, e, set())
+            roots.discard('arg1') if last != 'new' else None
+            n += 1
+            k = (what, key(e)[:100])
+            if len(roots) >= 2 and k not in seen:
+                seen.add(k)
+                ob.fail('mixing|%s|%s' % (short(f.path), what), '%s computes `%s` for %s from two different configuration values (%s): one configured value silently depends on another'
+                        % (short(f.path), key(e)[:100], what, ', '.join(sorted(roots))), where(f, line))
+        for t in f.calls():
+            tg = W.cg.targets(t.callee)
+            for i, a in enumerate(t.args):
+                pn = tg[0].local_name(i + 1) if len(tg) == 1 and tg[0].argc == len(t.args) else None
+                try:
+                    chk(cx.expr_operand(a), 'parameter `%s` of %s' % (pn or i, short(t.callee.best or '?')), t.line)
+                except Exception:
+                    pass
+        for st in f.stmts():
+            if st.k == 'assign' and st.rv.k == 'agg' and st.rv.j.get('ak') == 'adt' and st.rv.j.get('fields'):
+                for fld, op in zip(st.rv.j['fields'], st.rv.ops):
+                    chk(cx.expr_operand(op), 'field `%s`' % fld, st.line)
+    return n
+
+
 def rule(W, ob):
+    n6 = check_mixing(W, ob)
+    ob.require_count(n6, 60, 'values handed on by constructors')
     n5 = check_setters(W, ob)
     ob.require_count(n5, 10, 'builder setters')
     n4 = check_forwarded(W, ob)
